@@ -149,14 +149,19 @@ pub const LAYERS: &[&str] = &[
     "bulkhead", "ratelimiter", "circuitbreaker", "cbfallback", "retry", "timelimiter", "timelimiter_bg", "cache", "fallback", "hedge", "reconnect",
     "adaptive", "coalesce", "executor", "chaos", "stackA", "stackB", "stackD", "stackE",
 ];
-/// layers that may legitimately call the inner service again after a failure
-pub fn retries(name: &str) -> bool {
-    matches!(name, "retry" | "hedge" | "reconnect" | "stackA" | "stackD" | "stackE")
+/// 0: exactly one inner call per request; 1: more only after an inner failure (retry, reconnect);
+/// 2: more at any time, up to the configured number of attempts (hedging)
+pub fn multi(name: &str) -> u64 {
+    match name {
+        "hedge" | "stackD" => 2,
+        "retry" | "reconnect" | "stackA" | "stackE" => 1,
+        _ => 0,
+    }
 }
 fn keyfn(r: &Req) -> u32 {
     r.id
 }
-fn build<I>(name: &str, inner: I) -> Box<dyn DynSvc>
+fn build<I>(name: &str, v: u64, inner: I) -> Box<dyn DynSvc>
 where
     I: Service<Req, Response = Resp, Error = IErr> + Clone + Send + Sync + 'static,
     I::Future: Send + 'static,
@@ -178,27 +183,86 @@ where
     let tl = || TimeLimiterLayer::builder().timeout_duration(ms(1000)).build();
     let retry = || RetryLayer::<Req, IErr>::builder().max_attempts(3).backoff(FixedInterval::new(ms(1))).build();
     let aimd = || Algorithm::Aimd(Aimd::builder().initial_limit(10).min_limit(10).max_limit(10).build());
+    use tower_resilience_cache::{EvictionPolicy, SharedCacheLayer};
+    use tower_resilience_circuitbreaker::SlidingWindowType;
+    use tower_resilience_ratelimiter::WindowType;
+    use tower_resilience_retry::{ExponentialBackoff, RetryBudget, TokenBucketBudget};
+    let _ = FixedInterval::new(ms(1));
+    // every middleware in several non-triggering configurations (v = variant)
     match name {
-        "bulkhead" => wrap(BulkheadLayer::builder().max_concurrent_calls(10).build().layer(inner)),
-        "ratelimiter" => wrap(RateLimiterLayer::builder().limit_for_period(1000).refresh_period(ms(1000)).timeout_duration(ms(0)).build().layer(inner)),
-        "circuitbreaker" => wrap(CircuitBreakerLayer::builder().build().layer_fn(inner)),
+        "bulkhead" => match v {
+            0 => wrap(BulkheadLayer::builder().max_concurrent_calls(10).build().layer(inner)),
+            1 => wrap(BulkheadLayer::builder().max_concurrent_calls(10).max_wait_duration(ms(50)).build().layer(inner)),
+            _ => wrap(BulkheadLayer::builder().max_concurrent_calls(10).reject_when_full().build().layer(inner)),
+        },
+        "ratelimiter" => {
+            let wt = match v { 0 => WindowType::Fixed, 1 => WindowType::SlidingLog, _ => WindowType::SlidingCounter };
+            wrap(RateLimiterLayer::builder().limit_for_period(1000).refresh_period(ms(1000)).timeout_duration(ms(if v == 1 { 5 } else { 0 })).window_type(wt).build().layer(inner))
+        }
+        "circuitbreaker" => match v {
+            0 => wrap(CircuitBreakerLayer::builder().build().layer_fn(inner)),
+            1 => wrap(CircuitBreakerLayer::builder().sliding_window_type(SlidingWindowType::TimeBased).sliding_window_duration(ms(100)).minimum_number_of_calls(50).build().layer_fn(inner)),
+            _ => wrap(CircuitBreakerLayer::builder().failure_classifier(|r: &Result<Resp, IErr>| matches!(r, Err(e) if e.code > 50)).slow_call_duration_threshold(ms(500)).build().layer_fn(inner)),
+        },
         "cbfallback" => wrap(CircuitBreakerLayer::builder().build().layer_fn(inner).with_fallback(|r: Req| -> BoxFuture<'static, Result<Resp, IErr>> {
             Box::pin(async move { Ok(Resp { serial: 9000 + r.id as u64, req: r.id }) })
         })),
-        "retry" => wrap(retry().layer(inner)),
-        "timelimiter" => wrap(tl().layer(inner)),
-        "timelimiter_bg" => wrap(TimeLimiterLayer::builder().timeout_duration(ms(1000)).cancel_running_future(false).build().layer(inner)),
-        "cache" => wrap(CacheLayer::<Req, u32>::builder().max_size(10).key_extractor(|r: &Req| r.id).build().layer(inner)),
-        "fallback" => wrap(FallbackLayer::<Req, Resp, IErr>::builder().value(Resp { serial: 7000, req: 0 }).handle(|_e: &IErr| false).build().layer(inner)),
-        "hedge" => wrap(HedgeLayer::builder().max_hedged_attempts(2).delay(ms(5)).build().layer(inner)),
-        "reconnect" => Box::new(RcW(ReconnectLayer::new(ReconnectConfig::builder().policy(ReconnectPolicy::fixed(ms(1))).max_attempts(2).build()).layer(inner))),
-        "adaptive" => wrap(AdaptiveLimiterLayer::new(aimd()).layer(inner)),
+        "retry" => match v {
+            0 => wrap(retry().layer(inner)),
+            1 => {
+                let b: std::sync::Arc<dyn RetryBudget> = std::sync::Arc::new(TokenBucketBudget::new(0.0, 10, 10));
+                wrap(RetryLayer::<Req, IErr>::builder().max_attempts(3).backoff(ExponentialBackoff::new(ms(1)).max_interval(ms(2))).budget(b).build().layer(inner))
+            }
+            _ => wrap(RetryLayer::<Req, IErr>::builder().max_attempts_fn(|_r: &Req| 3).fixed_backoff(ms(1)).retry_on(|e: &IErr| e.code == 1).build().layer(inner)),
+        },
+        "timelimiter" => match v {
+            0 => wrap(tl().layer(inner)),
+            _ => wrap(TimeLimiterLayer::builder().timeout_fn(|_r: &Req| Duration::from_millis(1000)).build().layer(inner)),
+        },
+        "timelimiter_bg" => match v {
+            0 => wrap(TimeLimiterLayer::builder().timeout_duration(ms(1000)).cancel_running_future(false).build().layer(inner)),
+            _ => wrap(TimeLimiterLayer::builder().cancel_running_future(false).timeout_fn(|_r: &Req| Duration::from_millis(1000)).build().layer(inner)),
+        },
+        "cache" => match v {
+            0 => wrap(CacheLayer::<Req, u32>::builder().max_size(10).key_extractor(|r: &Req| r.id).build().layer(inner)),
+            1 => wrap(CacheLayer::<Req, u32>::builder().max_size(2).eviction_policy(EvictionPolicy::Lfu).ttl(ms(1)).key_extractor(|r: &Req| r.id).build().layer(inner)),
+            _ => wrap(SharedCacheLayer::<Req, u32, Resp>::builder().max_size(2).eviction_policy(EvictionPolicy::Fifo).key_extractor(|r: &Req| r.id).build().layer(inner)),
+        },
+        // every strategy, with a predicate that refuses every error: the protective condition is never triggered
+        "fallback" => {
+            let b = FallbackLayer::<Req, Resp, IErr>::builder();
+            let b = match v {
+                0 => b.value(Resp { serial: 7000, req: 0 }),
+                1 => b.value_fn(|| Resp { serial: 7100, req: 0 }),
+                2 => b.from_error(|e: &IErr| Resp { serial: 7200, req: e.serial as u32 }),
+                3 => b.from_request_error(|r: &Req, _e: &IErr| Resp { serial: 7300, req: r.id }),
+                4 => b.service(|r: Req| -> BoxFuture<'static, Result<Resp, IErr>> { Box::pin(async move { Ok(Resp { serial: 7400, req: r.id }) }) }),
+                _ => b.exception(|e: IErr| IErr { code: e.code + 50, serial: e.serial }),
+            };
+            wrap(b.handle(|_e: &IErr| false).build().layer(inner))
+        }
+        "hedge" => match v {
+            0 => wrap(HedgeLayer::builder().max_hedged_attempts(2).delay(ms(5)).build().layer(inner)),
+            1 => wrap(HedgeLayer::builder().max_hedged_attempts(3).no_delay().build().layer(inner)),
+            _ => wrap(HedgeLayer::builder().max_hedged_attempts(3).delay_fn(|k| Duration::from_millis(if k == 1 { 5 } else { 3 })).build().layer(inner)),
+        },
+        "reconnect" => {
+            let pol = match v { 0 => ReconnectPolicy::fixed(ms(1)), 1 => ReconnectPolicy::exponential(ms(1), ms(2)), _ => ReconnectPolicy::exponential_random(ms(1), ms(2), 0.5) };
+            Box::new(RcW(ReconnectLayer::new(ReconnectConfig::builder().policy(pol).max_attempts(2).build()).layer(inner)))
+        }
+        "adaptive" => match v {
+            0 => wrap(AdaptiveLimiterLayer::new(aimd()).layer(inner)),
+            _ => wrap(AdaptiveLimiterLayer::new(Algorithm::Vegas(tower_resilience_adaptive::Vegas::builder().initial_limit(10).min_limit(10).max_limit(10).build())).layer(inner)),
+        },
         "coalesce" => {
             let l: CoalesceLayer<u32, Req, fn(&Req) -> u32> = CoalesceLayer::new(keyfn as fn(&Req) -> u32);
             wrap(l.layer(inner))
         }
         "executor" => wrap(ExecutorLayer::current().layer(inner)),
-        "chaos" => wrap(ChaosLayer::builder().error_rate(0.0).error_fn(|_r: &Req| IErr { code: 99, serial: 0 }).latency_rate(0.0).seed(7).build().layer(inner)),
+        "chaos" => match v {
+            0 => wrap(ChaosLayer::builder().error_rate(0.0).error_fn(|_r: &Req| IErr { code: 99, serial: 0 }).latency_rate(0.0).seed(7).build().layer(inner)),
+            _ => wrap(ChaosLayer::builder().latency_rate(0.0).build().layer(inner)),
+        },
         // stacks of the composition guide that type-check as services
         "stackA" => wrap(tl().layer(retry().layer(inner))),
         "stackB" => wrap(tl().layer(CircuitBreakerLayer::builder().build().layer_fn(BulkheadLayer::builder().max_concurrent_calls(10).build().layer(inner)))),
@@ -221,14 +285,15 @@ impl Adapter for StacksAd {
     }
     fn gen_cfg(&mut self, rng: &mut Rng, _size: Size) -> Value {
         let l = *rng.pick(LAYERS);
-        json!({"layer": l, "inner": *rng.pick(&["strict", "strict", "climit"]), "retries": if retries(l) { 1 } else { 0 }})
+        json!({"layer": l, "v": rng.below(6), "inner": *rng.pick(&["strict", "strict", "climit"]), "retries": multi(l), "slow": rng.below(2)})
     }
     fn build(&mut self, cfg: &Value, sim: &mut Sim) {
         sim.w.lock().unwrap().track_inst = true;
         sim.hold_finished = true;
         let name = cfg["layer"].as_str().unwrap();
         let inner = Inner::new(&sim.w);
-        self.cur = Some(if cfg["inner"] == "climit" { build(name, ConcurrencyLimit::new(inner, 10)) } else { build(name, inner) });
+        let v = cfg["v"].as_u64().unwrap_or(0);
+        self.cur = Some(if cfg["inner"] == "climit" { build(name, v, ConcurrencyLimit::new(inner, 10)) } else { build(name, v, inner) });
     }
     fn mk(&mut self, req: &Req) -> CallFut {
         // the instance the environment drove to readiness is the one that is called
@@ -273,6 +338,11 @@ impl Adapter for StacksAd {
             ready_until(&mut v);
             v.push(json!({"e":"create","c":c,"key":10 + c}));
             v.push(json!({"e":"settle"}));
+            if cfg["slow"].as_u64().unwrap_or(0) == 1 && rng.pct(60) {
+                // a slow inner call: hedges fire, timers of the layers run
+                v.push(json!({"e":"advance","d":6}));
+                v.push(json!({"e":"settle"}));
+            }
             let fail = rng.pct(35);
             v.push(json!({"e":"completeall","out": if fail { "e1" } else { "ok" }}));
             v.push(json!({"e":"settle"}));
